@@ -80,6 +80,14 @@ func runC12(c *Ctx) {
 	c12CommitReuse(c)
 	c12ExactNames(c)
 	c12NestedTag(c, "R3")
+	everythingIncludesTags(c, "R3")
+	// import cleans blobs through the same code as `git add`: what counts as already-a-pointer is decided there (C08)
+	{
+		saved := c.RulePrefix
+		c.RulePrefix = saved + "C08/"
+		runC08(c)
+		c.RulePrefix = saved
+	}
 	fixupAttributesPerCommit(c, "R2")
 	noFetchIncludeIn(c, "R2", "which paths migrate rewrites is decided by --include/--exclude alone: with lfs.fetchinclude/fetchexclude configured, selected paths stay unconverted (or unselected ones are converted) and .gitattributes gets lines nobody asked for", "getHistoryRewriter", "migrateImportCommand", "migrateExportCommand", "migrateInfoCommand")
 	c12NoRewriteAccumulates(c, "R2")
